@@ -1,0 +1,1 @@
+//! Hooks owned by property C17 (feature `verif-hooks`).
